@@ -5,7 +5,7 @@ import ast
 from typing import Dict, List, Optional, Set, Tuple
 
 from .. import sym
-from ..cfg import Ev, Graph
+from ..cfg import Ev, Graph, reach
 from ..engine import Ctx
 from ..guards import guards, parents, text
 from ..paths import EXC_LABELS, Search
@@ -343,6 +343,17 @@ def rule_saves(ctx: Ctx, out: Collector) -> None:
             else:
                 out.bad('AS-2', cons, sv.where(), 'the save is also reached by a second arrival (a scope that did not execute the node): the '
                                                   'node is saved twice and a write-once store fails the run', path_text(g, res[0]))
+            # ---- AS-4: the save happens before the run can be told that the node is finished
+            from .common import notify_points
+            run_pts = [n_ for n_, k_, how_ in notify_points(ctx, g) if k_ == ('const', 'run')]
+            after_notify = reach(g, run_pts, labels=EXC_LABELS) if run_pts else set()
+            cons = cons_base + ' [saved before the run waiter is notified]'
+            if sv.id in after_notify:
+                out.bad('AS-4', cons, sv.where(), 'the artifact is saved only after the run waiter (and the consumers) were notified: run() can '
+                                                  'return and cancel this task before the save happens, so an executed node - typically the '
+                                                  'output node - is never saved although the run succeeds')
+            else:
+                out.ok('AS-4', cons, sv.where(), 'no notification of the run waiter precedes the save')
             # ---- AS-2b: immediate save although results can be re-armed
             from .common import hides
             can_rearm = any(fld == 'node_results' for _, fld, _k in hides(ctx, g)) or any(
